@@ -122,3 +122,10 @@ Proof.
     apply tkey_eqb_eq in E. congruence.
   - intros prm s p1 p2 E. now injection E.
 Qed.
+
+(* without injectivity of the KDF in the password the statement fails: a KDF that forgets the last bit of the password *)
+Definition lossy_kdf (prm pw salt : N) : tkey := (prm, N.div pw 2, salt).
+Lemma lossy_kdf_breaks_own_only :
+  exists pw pw' : N, pw <> pw' /\
+    unlock N N N tkey N tblob lossy_kdf tdec (make_key N N N tkey N N tblob lossy_kdf tenc 0%N 0%N 0%N pw 7%N) pw' = Some 7%N.
+Proof. exists 2%N, 3%N. split; [discriminate|reflexivity]. Qed.
